@@ -31,7 +31,9 @@ EXPLANATION = (
     'processors are reachable only from the worker entry; the periodic reader joins its worker in OnShutDown. '
     'C02.R7: in OnEnd/OnEmit/ForceFlush of the batch processors every queue insertion, ticket increment, wait and '
     'notification is guarded by the not-shut-down outcome of a read of the latch. C02.R8: every condition-variable '
-    'wait reachable from these classes is a timed wait.')
+    'wait reachable from these classes is a timed wait. C02.R9 (must-follow): after the exporter\'s ForceFlush in the '
+    'completion helper the publication of the ticket follows on every path except those taken because the notified '
+    'counter already covers the ticket (a necessary condition for ForceFlush/Shutdown termination when the exporter fails).')
 NOT_DECIDED = ('termination/liveness of the timed loops under every interleaving and timeout; that a true ForceFlush '
                'really covered every record under all schedules (only the ordering/aggregation necessary conditions are decided).')
 
@@ -205,6 +207,46 @@ def rule_r1_r2(ck, prog, cg, roles, batch=True):
                                  path=g.describe_path(g.path(ctx_entry, p, avoid=fl, avoid_edges=null_exporter_edge) or []))
                 else:
                     ck.holds('C02.R2', p.f, site + ':after-exporter-flush', p.n, 'exporter ForceFlush precedes the publication')
+        if batch:
+            # ---- R9 (termination, necessary condition): once the exporter has been flushed for a pending ticket the
+            # publication must follow on every path; the only exempt exits are those taken because the notified
+            # counter already covers the ticket (a comparison that reads the notified counter).
+            pub_pts = [p for (p, _o) in pubs]
+
+            def covered_edge(a, b, lab):
+                if not lab or not isinstance(lab[0], int):
+                    return False
+                ff = lab[1]
+                for (sf, sn, sctx) in origins(g, rd, ff, lab[0], a.ctx):
+                    for j in sf.subtree(sn['i']):
+                        m = sf.nodes[j]
+                        o = atomic_op(m)
+                        if o and o[0] == 'load' and path_str(access_path(sf, m['obj'], sctx)) == notified:
+                            return True
+                        if m['k'] == 'ref' and m.get('sk') == 'local':
+                            for (sf2, sn2, sctx2) in origins(g, rd, sf, j, sctx):
+                                o2 = atomic_op(sn2)
+                                if o2 and path_str(access_path(sf2, sn2['obj'], sctx2)) == notified:
+                                    return True
+                return False
+            for fp in flushes:
+                key = ('r9', fp.f.key, fp.n['i'])
+                if key in done:
+                    continue
+                done.add(key)
+                ctx_exit = g.ctx_bounds[id(fp.ctx)][1]
+                r = g.reachable_from([q for (q, _l) in fp.succ], avoid=pub_pts, avoid_edges=covered_edge)
+                if ctx_exit.id in r:
+                    pth = None
+                    for (q, _l) in fp.succ:
+                        pth = g.path(q, ctx_exit, avoid=pub_pts, avoid_edges=covered_edge)
+                        if pth:
+                            break
+                    ck.violation('C02.R9', fp.f, 'publish-after-exporter-flush', fp.n,
+                                 'after the exporter\'s ForceFlush a path leaves the completion helper without publishing the ticket: the flush stays pending for ever (ForceFlush with an infinite timeout and the shutdown drain never terminate)',
+                                 path=g.describe_path([fp] + (pth or [])))
+                else:
+                    ck.holds('C02.R9', fp.f, 'publish-after-exporter-flush', fp.n, 'publication follows the exporter flush on every path')
     if not n_cycles:
         raise AnalysisBroken('%s: no snapshot point in any worker cycle' % roles.short)
     return notified
@@ -374,6 +416,23 @@ def rule_r6_join(ck, prog, roles, batch=True):
                              path=g.describe_path(g.path(g.entry, tp, avoid=joins, avoid_edges=_joinable_false) or []))
             else:
                 ck.holds('C02.R6', f, 'join-before-exporter-shutdown', tp.n, 'worker join dominates exporter Shutdown')
+        # every caller (also a second, concurrent one) must have the worker joined before Shutdown returns, and the
+        # join / joinable test must be serialised by a mutex of the object
+        r = g.reachable_from(g.entry, avoid=joins, avoid_edges=_joinable_false)
+        if g.exit.id in r:
+            ck.violation('C02.R6', f, 'join-before-every-return', None,
+                         'a path through Shutdown returns without the worker having been joined (e.g. a fast path for later callers): Shutdown can return while an Export is still running or yet to come',
+                         path=g.describe_path(g.path(g.entry, g.exit, avoid=joins, avoid_edges=_joinable_false) or []))
+        else:
+            ck.holds('C02.R6', f, 'join-before-every-return', joins[0].n if joins else None, 'every return of Shutdown is behind the join')
+        held = held_locks(g)
+        for j in joins:
+            locks = [l for l in held.get(j.id, ()) if l.startswith('this.')]
+            if locks:
+                ck.holds('C02.R6', f, 'join-serialised', j.n, 'join executed holding %s' % locks[0])
+            else:
+                ck.violation('C02.R6', f, 'join-serialised', j.n,
+                             'the worker join is not serialised by a mutex of the processor: two concurrent Shutdown callers race on joinable()/join()')
     else:
         r = g.reachable_from(g.entry, avoid=joins, avoid_edges=_joinable_false)
         rets = [p for p in g.returns()]
@@ -451,9 +510,10 @@ def run(ck, prog):
     ck.doc('C02.R3', 'every return of the public flush entry is false or notified >= own ticket', 5)
     ck.doc('C02.R4', 'every flush layer: a false child result forces a false return on every feasible path', 12)
     ck.doc('C02.R5', 'exporter/child Shutdown guarded by the first-caller outcome of an atomic read-modify-write', 5)
-    ck.doc('C02.R6', 'worker joined before exporter Shutdown; exporter calls only from the worker; periodic OnShutDown joins', 8)
+    ck.doc('C02.R6', 'worker joined before exporter Shutdown; exporter calls only from the worker; periodic OnShutDown joins', 12)
     ck.doc('C02.R7', 'batch OnEnd/OnEmit/ForceFlush: shutdown gate dominates every effectful event', 4)
     ck.doc('C02.R8', 'every condition-variable wait in these classes is timed', 5)
+    ck.doc('C02.R9', 'after the exporter flush the ticket publication follows on every path (necessary for termination)', 2)
     cg = CallGraph(prog)
 
     # ---- canaries
@@ -474,6 +534,8 @@ def run(ck, prog):
         rule_r7(ck, prog, cb, ['OnEnd'])
     with ck.canary('C02.R8'):
         rule_r8(ck, prog, cb)
+    with ck.canary('C02.R9'):
+        rule_r1_r2(ck, prog, cg, Roles(prog, 'canary::c02::BadBatch2', cg=cg))
 
     # ---- the real thing
     for cls, producer in (('sdk::trace::BatchSpanProcessor', 'OnEnd'), ('sdk::logs::BatchLogRecordProcessor', 'OnEmit')):
